@@ -289,21 +289,21 @@ Proof.
   - apply R; [assumption|assumption|]. intros x y E. simpl. rewrite E. reflexivity.
   - apply R; [assumption|assumption|]. intros x y E. simpl. rewrite E. reflexivity.
   - (* PList *)
-    pose proof (map_res_shape nlf (rec (Some (por parent PList))) (rec (Some (por parent PList))) bs1 bs2 Hb Hn
+    pose proof (map_res_shape nlf (rec (Some PList)) (rec (Some PList)) bs1 bs2 Hb Hn
                   (fun b1 b2 H1 H2 => Hrec _ b1 b2 H1 H2)) as M.
-    destruct (map_res (rec (Some (por parent PList))) bs1), (map_res (rec (Some (por parent PList))) bs2);
+    destruct (map_res (rec (Some PList)) bs1), (map_res (rec (Some PList)) bs2);
       simpl in *; try contradiction; try congruence.
-  - pose proof (map_res_shape nlf (rec (Some (por parent PList))) (rec (Some (por parent PList))) bs1 bs2 Hb Hn
+  - pose proof (map_res_shape nlf (rec (Some PList)) (rec (Some PList)) bs1 bs2 Hb Hn
                   (fun b1 b2 H1 H2 => Hrec _ b1 b2 H1 H2)) as M.
-    destruct (map_res (rec (Some (por parent PList))) bs1), (map_res (rec (Some (por parent PList))) bs2);
+    destruct (map_res (rec (Some PList)) bs1), (map_res (rec (Some PList)) bs2);
       simpl in *; try contradiction; try congruence.
-  - pose proof (map_res_shape nlf (rec (Some (por parent PList))) (rec (Some (por parent PList))) bs1 bs2 Hb Hn
+  - pose proof (map_res_shape nlf (rec (Some PList)) (rec (Some PList)) bs1 bs2 Hb Hn
                   (fun b1 b2 H1 H2 => Hrec _ b1 b2 H1 H2)) as M.
-    destruct (map_res (rec (Some (por parent PList))) bs1), (map_res (rec (Some (por parent PList))) bs2);
+    destruct (map_res (rec (Some PList)) bs1), (map_res (rec (Some PList)) bs2);
       simpl in *; try contradiction; try congruence.
-  - pose proof (map_res_shape nlf (rec (Some (por parent PList))) (rec (Some (por parent PList))) bs1 bs2 Hb Hn
+  - pose proof (map_res_shape nlf (rec (Some PList)) (rec (Some PList)) bs1 bs2 Hb Hn
                   (fun b1 b2 H1 H2 => Hrec _ b1 b2 H1 H2)) as M.
-    destruct (map_res (rec (Some (por parent PList))) bs1), (map_res (rec (Some (por parent PList))) bs2);
+    destruct (map_res (rec (Some PList)) bs1), (map_res (rec (Some PList)) bs2);
       simpl in *; try contradiction; try congruence.
 Qed.
 
